@@ -279,7 +279,9 @@ impl From<StatusList2021CredentialSubject> for Subject {
 impl StatusList2021CredentialSubject {
   /// Parse a StatusListCredentialSubject out of a credential, without copying.
   fn try_from_credential(credential: &mut Credential) -> Result<Self, StatusList2021CredentialError> {
-    let OneOrMany::One(mut subject) = std::mem::take(&mut credential.credential_subject) else {
+    // A one-element array is one credential subject.
+    let mut subjects = std::mem::take(&mut credential.credential_subject).into_vec();
+    let (Some(mut subject), true) = (subjects.pop(), subjects.is_empty()) else {
       return Err(StatusList2021CredentialError::MultipleCredentialSubject);
     };
     if let Some(subject_type) = subject.properties.get("type") {
